@@ -154,6 +154,10 @@ class KCustom(object):
     def my_source(self):
         return iter([("ms", 1), ("ms", 2)])
 
+    def request(self):
+        # a second candidate with another meaning: must not be preferred to a method named explicitly
+        yield ("request-of-custom",)
+
 
 class KRun(object):
     def run(self, flow):
@@ -188,6 +192,20 @@ class KFR(object):
         yield ("fr", list(self.vals))
 
 
+class KCallFC(KFC):
+    """several candidate methods: callable and fill/compute (no run)"""
+
+    def __call__(self, v):
+        return ("c", v)
+
+
+class KFCFR(KFC):
+    """fill with compute and request of different meanings"""
+
+    def request(self):
+        yield ("request", len(self.vals))
+
+
 class KFillInto(object):
     def fill_into(self, el, v):
         el.fill(("fi", v))
@@ -210,7 +228,7 @@ KINDS = {
     "callable_obj": KCallable, "custom": KCustom, "run_el": KRun, "run_el_break": KRunBreak,
     "fc": KFC, "fr": KFR, "fill_into_el": KFillInto, "iterable": lambda: [7, 8, 9],
     "lambda": lambda: (lambda v: ("l", v)), "none": lambda: None, "junk": lambda: 5,
-    "genfunc": lambda: _genfunc,
+    "genfunc": lambda: _genfunc, "call_fc": KCallFC, "fc_fr": KFCFR,
 }
 ADAPTERS = ["Call", "Run", "FillInto", "FillCompute", "SourceEl"]
 NAMES = ["default", "custom", "missing", "noncallable"]
